@@ -666,7 +666,7 @@ func c10r5(r *R) {
 			n++
 			gs := c.guardStrs(i.Block())
 			o.AtI(i)
-			o.Check(hasGuardContaining(gs, "-", "tlsHandshakeWithTimeout(") && hasGuardContaining(gs, "-", "GetClientHello("),
+			o.Check(guardOkOn(gs, "tlsHandshakeWithTimeout(") && guardOkOn(gs, "GetClientHello("),
 				"%s is reachable after a failed handshake or failed ClientHello capture; guards %v", calleeName(callOf(i)), gs)
 		}
 	})
@@ -809,7 +809,7 @@ func c10r9(r *R) {
 					}
 					nz := false
 					for _, g := range c.guardStrs(i.Block()) {
-						if g == "-"+eqs("0", c.Expr(x.Y)) || g == "+(0 < "+c.Expr(x.Y)+")" || g == "+(0 != "+c.Expr(x.Y)+")" {
+						if g == canonStr("-"+eqs("0", c.Expr(x.Y))) || g == "+(0 < "+c.Expr(x.Y)+")" || g == "+(0 != "+c.Expr(x.Y)+")" {
 							nz = true
 						}
 					}
